@@ -12,6 +12,8 @@ python3 tools/gen_set_ast.py > build/gen_set_ast.log     # C09/C12/C15: Generate
 python3 tools/gen_prng_ast.py > build/gen_prng_ast.log     # C19/C13/C18: Generated/PrngAst.lean (clang AST of randombytes.cpp / fastrandombytes.cpp as step functions, <1 s)
 python3 tools/gen_gauss_ast.py > build/gen_gauss_ast.log   # C10/C11: Generated/GaussAst.lean (clang AST of FastGaussianNoise.hpp: cmp + sampling path of getNoise, <2 s)
 python3 tools/gen_init_ast.py > build/gen_init_ast.log   # C06/C02/C01: Generated/InitAst.lean (clang AST of core::initialize() / core::prep_wtab; after gen_ops_ast + gen_crt_ast, ~2 s)
+python3 tools/gen_bool_ast.py > build/gen_bool_ast.log   # C08: Generated/BoolAst.lean (clang AST of expr::operator bool, ~3 s)
+python3 tools/gen_cow_ast.py > build/gen_cow_ast.log     # C14: Generated/CowAst.lean (clang AST of the copy-on-write handle class poly_p, ~2 s)
 python3 tools/gen_footprint.py > build/gen_footprint.log   # C17: Generated/Footprint.lean (valgrind-lackey, ~15 s)
 cd lean
 lake build NflVerif driver
